@@ -1373,6 +1373,33 @@ MUTANTS = [
             [self._buffer, self._notempty],
             exitpriority=10,
         )""")),
+    # ------------------------------------- argument order / defaults / token value (operators ARGSWAP, DEFAULT, CONST of the sweep)
+    M("handshake-pop-args-swapped", ["C05", "C07"], ["R-EXIT-HANDSHAKE"],
+      (PE, """                p = self.processes.pop(result_item, None)""", """                p = self.processes.pop(None, result_item)""")),
+    M("spawn-exit-lock-two-units", ["C07", "C08"], ["R-SPAWN-SITE"],
+      (PE, """            worker_exit_lock = self._context.BoundedSemaphore(1)""", """            worker_exit_lock = self._context.BoundedSemaphore(2)""")),
+    M("shutdown-default-kills-workers", ["C05"], ["R-SHUTDOWN-API"],
+      (PE, """    def shutdown(self, wait=True, kill_workers=False):""", """    def shutdown(self, wait=True, kill_workers=True):""")),
+    M("shutdown-default-does-not-wait", ["C05"], ["R-SHUTDOWN-API"],
+      (PE, """    def shutdown(self, wait=True, kill_workers=False):""", """    def shutdown(self, wait=False, kill_workers=False):""")),
+    M("select-register-args-swapped", ["C15"], ["R-PICKLER-SELECT"],
+      (RD, """                self.register(type, reduce_func)""", """                self.register(reduce_func, type)""")),
+    M("wrap-rebuild-args-swapped", ["C16"], ["R-WRAP-DISPATCH"],
+      (CW, """    return _wrap_non_picklable_objects(obj, keep_wrapper)""", """    return _wrap_non_picklable_objects(keep_wrapper, obj)""")),
+    M("shutdown-purges-cancelled-items-still-queued", ["C01", "C03", "C05"], ["R-DROP-RESOLVES"],
+      (PE, """            if self.is_shutting_down():
+                self.flag_executor_shutting_down()
+""", """            if self.is_shutting_down():
+                self.flag_executor_shutting_down()
+                for work_id, work_item in list(self.pending_work_items.items()):
+                    if work_item.future.cancelled():
+                        work_item.future.set_running_or_notify_cancel()
+                        del self.pending_work_items[work_id]
+""")),
+    M("cpu-cgroup-v2-fields-swapped", ["C17"], ["R-CPU-HELPERS"],
+      (CX, """            cpu_quota_us, cpu_period_us = fh.read().strip().split()""", """            cpu_period_us, cpu_quota_us = fh.read().strip().split()""")),
+    M("launch-sentinel-is-write-end", ["C02", "C20"], ["R-EXITCODE"],
+      (PP, """            parent_r, child_w = os.pipe()""", """            child_w, parent_r = os.pipe()""")),
     # ------------------------------------------------------- R-SCN-* (polarity)
     M("scn-wakeup-inverted", ["C01", "C02", "C05"], ["R-SCN-WAKEPRIM"],
       (PE, """    def wakeup(self):
